@@ -63,3 +63,59 @@ package spec
 //@   property C18:safety
 //@   inline
 //@   ensures sigil: result <==> (len(s) > 0 && s[0] == 64)
+
+// ---------------------------------------------------------------- C18: zero-annotation sweep
+// Functions whose no-panic obligations discharge without any contract beyond a non-nil pointer receiver
+// (generated from `gvc sweep`; `inline`: callers keep seeing the body).
+
+//@ func (*Base64Bytes).Decode
+//@   property C18:safety
+//@   inline
+//@   requires b64 != nil
+
+//@ func (*Base64Bytes).UnmarshalJSON
+//@   property C18:safety
+//@   inline
+//@   requires b64 != nil
+
+//@ func (*UserID).Domain
+//@   property C18:safety
+//@   inline
+//@   requires user != nil
+
+//@ func (*UserID).Local
+//@   property C18:safety
+//@   inline
+//@   requires user != nil
+
+//@ func (ErrRoomKeysVersion).Error
+//@   property C18:safety
+//@   inline
+
+//@ func (IncompatibleRoomVersionError).Error
+//@   property C18:safety
+//@   inline
+
+//@ func (InternalServerError).Error
+//@   property C18:safety
+//@   inline
+
+//@ func (LimitExceededError).Error
+//@   property C18:safety
+//@   inline
+
+//@ func (MatrixError).Error
+//@   property C18:safety
+//@   inline
+
+//@ func (SenderID).IsPseudoID
+//@   property C18:safety
+//@   inline
+
+//@ func (SenderID).ToUserID
+//@   property C18:safety
+//@   inline
+
+//@ func NotTrusted
+//@   property C18:safety
+//@   inline
